@@ -162,7 +162,7 @@ func startCluster(n int) (*cluster, error) {
 		c.byID[nd.ID] = nd
 		join = append(join, nd.GossipAddr())
 	}
-	ok := psim.WaitFor(10*time.Second, func() bool { return psim.Settled(c.nodes, "") })
+	ok := psim.WaitFor(30*time.Second, func() bool { return psim.Settled(c.nodes, "") })
 	if !ok {
 		return nil, fmt.Errorf("cluster of %d did not settle", n)
 	}
@@ -356,7 +356,7 @@ func runC06(c *cluster, cases []c06case, emit emitter) error {
 					}
 				}
 			}
-			if !psim.WaitFor(10*time.Second, func() bool { return psim.Settled(c.nodes, "") }) {
+			if !psim.WaitFor(30*time.Second, func() bool { return psim.Settled(c.nodes, "") }) {
 				return fmt.Errorf("did not settle after clearing the placement")
 			}
 			for _, id := range cs.has {
@@ -367,7 +367,7 @@ func runC06(c *cluster, cases []c06case, emit emitter) error {
 				ups = append(ups, u)
 			}
 			cur = key
-			if !psim.WaitFor(10*time.Second, func() bool { return psim.Settled(c.nodes, "") }) {
+			if !psim.WaitFor(30*time.Second, func() bool { return psim.Settled(c.nodes, "") }) {
 				return fmt.Errorf("did not settle for placement %v", cs.has)
 			}
 		}
@@ -483,7 +483,7 @@ func runC01Placement(c *cluster, placed []Placed, emit emitter, rng *rand.Rand) 
 			u.Shutdown()
 		}
 	}()
-	if !psim.WaitFor(10*time.Second, func() bool { return psim.Settled(c.nodes, "") }) {
+	if !psim.WaitFor(30*time.Second, func() bool { return psim.Settled(c.nodes, "") }) {
 		return fmt.Errorf("did not settle for placement %v", placed)
 	}
 	for _, entry := range c.ids() {
